@@ -512,6 +512,17 @@ def draw_lik_spec(rng, n_dim, family=None, blob=None, prior=None,
         p = dict(mu=centre(0.45, 0.55), sig=widths(0.08, 0.2),
                  rad=min(w[0], w[1]) * rng.uniform(0.25, 0.35),
                  thick=rng.choice([0.05, 0.1, 0.2]))
+        if rng.random() < 0.4:
+            # a thin ring that touches all four sides of the (x0, x1) square
+            # and is narrow in the other coordinates: the greedy phase of
+            # UnitCubeEllipsoidMixture.compute ends with a volume above one
+            # and its fallback phase chooses the ellipsoid (probe
+            # mixture_fallback_branch; seeded change R3-C11-A)
+            p['mu'][0] = lo[0] + w[0] * 0.5
+            p['mu'][1] = lo[1] + w[1] * 0.5
+            p['rad'] = min(w[0], w[1]) * rng.uniform(0.38, 0.43)
+            p['thick'] = 0.05
+            p['sig'] = widths(0.04, 0.07)
     arg = 'dict' if prior in ('obj', 'fn_dict') else 'array'
     spec = dict(family=family, n_dim=n_dim, params=p, blob=blob, arg=arg,
                 prior=prior, vectorized=bool(vectorized), lo=lo, hi=hi)
